@@ -194,11 +194,14 @@ class ObjContent(Element):
     @renderer
     def docstringToc(self, request: IRequest, tag: Tag) -> Union[Tag, str]:
         
-        toc = util.DocGetter().get_toc(self.ob)
-
         # Only show the TOC if visiting the object page itself, in other words, the TOC do dot show up
         # in the object's parent section or any other subsections except the main one.
-        if toc and self.documented_ob is self.ob:
+        # Do not build it otherwise: each build gives new ids to the entries the section titles link back to.
+        if self.documented_ob is not self.ob:
+            return ""
+
+        toc = util.DocGetter().get_toc(self.ob)
+        if toc:
             return tag.fillSlots(titles=toc)
         else:
             return ""
